@@ -205,6 +205,12 @@ class Client:
 
         def fired():
             rec[1] = "fired"
+            if self.closed_results and \
+                    self.world.observation_order_violation is None:
+                # the value of an event is handed over after the application
+                # has already been given the closed notification
+                self.world.observation_order_violation = (
+                    self.name, kind, "closed")
             rank = self.ONE_SHOT_ORDER.index(kind)
             for other in self.observations[:mine]:
                 if other[1] == "pending" and \
